@@ -21,7 +21,13 @@ func init() { register("C08", checkC08) }
 func refExcluded(list string, code string) bool {
 	cat := refCodes[code]
 	for _, it := range strings.Split(list, ",") {
-		t := strings.ToUpper(strings.TrimSpace(it))
+		// "any letter case" of a code: ASCII letters only; ı (U+0131) or ſ (U+017F) are not letters of any code
+		t := strings.Map(func(c rune) rune {
+			if c >= 'a' && c <= 'z' {
+				return c - 32
+			}
+			return c
+		}, strings.TrimSpace(it))
 		if t == "" {
 			continue
 		}
@@ -58,7 +64,7 @@ func checkC08(replay string) {
 	r.Assume = []string{"reference code table and hierarchy copied from the book"}
 	nProg := r.Pick(3, 12)
 	nRandom := r.Pick(60, 600)
-	junk := []string{"IMM0", "IMM011", "XX", "A L L", "", " ", "IM", "MM01", "01", "IMM 01", "CTOR1", "ALLL", "TONL0", "PKGO", "impl", "iMm02"}
+	junk := []string{"IMM0", "IMM011", "XX", "A L L", "", " ", "IM", "MM01", "01", "IMM 01", "CTOR1", "ALLL", "TONL0", "PKGO", "impl", "iMm02", "ımm", "ımm01", "ımpl", "ımpl03", "ALLſ"}
 	type job struct {
 		pi   int
 		s    string
